@@ -18,6 +18,7 @@ sequences the theorems quantify over.
 -/
 import A10Verif.Lemmas.OpInv
 import A10Verif.Model.Life
+import A10Verif.Lemmas.LifeRefine
 
 namespace A10.OpSys
 open A10
@@ -143,3 +144,36 @@ example :
     (run (init true) es).op.resDrops = 1 := by decide
 
 end A10.OpSys
+
+namespace A10.Life
+open A10
+
+/-- **Never freed twice, system level** — for every operation in every reachable state of the
+multi-operation system. -/
+theorem C06_system_free_le_one {s : Sys} (hr : Reachable s) (i : Nat) (o : Op)
+    (ho : s.ops[i]? = some o) : o.frees ≤ 1 ∧ o.resDrops ≤ 1 :=
+  life_free_le_one hr i o ho
+
+/-- **Never leaked while the Ring keeps being polled, system level.** An operation whose future
+was dropped, with nothing of it queued, in flight or pending in the completion queue / overflow
+list, has been freed exactly once together with its resources. -/
+theorem C06_system_poll_reclaims {s : Sys} (hr : Reachable s) (i : Nat) (o : Op)
+    (ho : s.ops[i]? = some o) (hf : o.futLive = false) (hsq : ¬ SqEntry.op i ∈ s.sq)
+    (hin : ¬ i ∈ s.inflight)
+    (hcq : ∀ c : Cqe, c ∈ s.cq ++ s.overflow → c.ud = Ud.op i → fSkip c.flags = true) :
+    o.boxLive = false ∧ o.frees = 1 ∧ o.resInit = false ∧ o.resDrops = 1 :=
+  life_poll_reclaims hr i o ho hf hsq hin hcq
+
+/-- **Never leaked when the Ring is dropped, system level.** From ANY reachable state, dropping
+the Ring (flush, synchronous cancel-all, processing until no completion is left — however many
+completions exceed the completion-queue size) leaves nothing queued, in flight or pending, and
+every operation whose future has been dropped has been freed exactly once. -/
+theorem C06_system_ring_drop_reclaims {s : Sys} (hr : Reachable s) (hl : s.ringLive = true) :
+    (stepMv s Mv.rdrop).cq = [] ∧ (stepMv s Mv.rdrop).overflow = [] ∧
+    (stepMv s Mv.rdrop).inflight = [] ∧ (stepMv s Mv.rdrop).sq = [] ∧
+    (stepMv s Mv.rdrop).ringLive = false ∧
+    ∀ (i : Nat) (o : Op), (stepMv s Mv.rdrop).ops[i]? = some o → o.futLive = false →
+      o.boxLive = false ∧ o.frees = 1 ∧ o.resInit = false ∧ o.resDrops = 1 :=
+  life_ring_drop_reclaims hr hl
+
+end A10.Life
